@@ -152,13 +152,22 @@ def declare(spec):
         params={'process': Ref('Process'), 'signum': INT, 'recursive': BOOL},
         requires=['not isnull(process)', 'wf_procs_pid(self)'],
         ensures=[CONF, SIGKEEP, EVKEEP, HKEEP, 'kstep()', 'clock >= old(clock)',
-                 "same_field('Watcher.processes', 'Process.stopping', 'Process.klog', 'Process.naps', 'Process.alive_seen')"],
+                 "same_field('Watcher.processes', 'Process.stopping', 'Process.klog', 'Process.naps', 'Process.alive_seen')",
+                 # C09: a signal delivered to the worker itself is announced by a kill event carrying its pid
+                 ('kill-event-published',
+                  "implies(%s and exists(INT, lambda i: length(old(siglog)) <= i and i < length(siglog) and "
+                  "sig_pid(siglog[i]) == process.pid), exists(INT, lambda j: length(old(evlog)) <= j and j < length(evlog) "
+                  "and ev_topic(evlog[j]) == 'kill' and ev_pid(evlog[j]) == process.pid and ev_w(evlog[j]) == ref_id(self)))"
+                  % OPEN)],
         modifies=['siglog', 'evlog', 'hooklog', 'clock', 'K_alive'],
         loops={0: Loop(invariant=[
             "forall(INT, lambda i: implies(length(old(siglog)) <= i and i < length(siglog), "
             "sig_num(siglog[i]) == signum and (sig_pid(siglog[i]) == process.pid or %s)))" % DESC,
             SIGKEEP, EVKEEP, HKEEP, 'kstep()', 'clock >= old(clock)',
             "forall(INT, lambda i: implies(0 <= i and i < loop_n, ufn('descendant', BOOL, process.pid, loop_seq[i])))",
+            "implies(%s and exists(INT, lambda i: length(old(siglog)) <= i and i < length(siglog) and "
+            "sig_pid(siglog[i]) == process.pid), exists(INT, lambda j: length(old(evlog)) <= j and j < length(evlog) "
+            "and ev_topic(evlog[j]) == 'kill' and ev_pid(evlog[j]) == process.pid and ev_w(evlog[j]) == ref_id(self)))" % OPEN,
             "same_field('Watcher.processes', 'Process.stopping', 'Process.klog', 'Process.naps', "
             "'Process.alive_seen', 'Process.pid', 'Watcher.evpub_socket', 'PubSocket.closed', 'Watcher.hooks')",
         ], fingerprint='for:children')},
